@@ -134,7 +134,10 @@ const std::vector<Entry> &catalogue() {
         std::string f = grid_bytes(*src, false); int v = s.pick(13); bool ok = true;
         switch (v) { case 0: d = "first word"; ok = replace_first(f, "TASMANIAN", "TASMANIAM"); break; case 1: d = "second word"; ok = replace_first(f, "TASMANIAN SG", "TASMANIAN SX"); break;
             case 2: { d = "version without a dot"; size_t e = f.find('\n'); f.replace(13, e - 13, "eight"); break; } case 3: { d = "version prior to 3.0"; size_t e = f.find('\n'); f.replace(13, e - 13, "2.0"); break; }
-            case 4: { d = "future version"; size_t e = f.find('\n'); f.replace(13, e - 13, s.pick(2) ? "99.0" : "8.99"); break; } case 5: { d = "huge version number"; size_t e = f.find('\n'); f.replace(13, e - 13, "99999999999.0"); break; }
+            case 4: { size_t e = f.find('\n'); std::string cur = f.substr(13, e - 13); int maj = 8, mnr = 2; sscanf(cur.c_str(), "%d.%d", &maj, &mnr);   // every version after the one this tree writes is a future version
+                int w = s.pick(7); std::string nv = w == 0 ? "99.0" : w == 1 ? std::to_string(maj) + ".99" : w == 2 ? std::to_string(maj + 1) + ".0" : w == 3 ? std::to_string(maj) + "." + std::to_string(mnr + 1)
+                    : w == 4 ? std::to_string(maj) + "." + std::to_string(mnr) + "0" : w == 5 ? std::to_string(maj) + ".1" + std::to_string(mnr) : std::to_string(maj) + "." + std::to_string(mnr) + "00";
+                d = "future version " + nv; f.replace(13, e - 13, nv); break; } case 5: { d = "huge version number"; size_t e = f.find('\n'); f.replace(13, e - 13, "99999999999.0"); break; }
             case 6: d = "missing warning line"; ok = replace_first(f, "WARNING: do not edit this manually", "WARNING: edit this manually"); break;
             case 7: { d = "unknown grid type"; size_t p = f.find("manually\n"); size_t e = f.find_first_of(" \n", p + 9); f.replace(p + 9, e - (p + 9), "hexagonal"); break; }
             case 8: d = "domain line"; ok = replace_first(f, "\ncanonical\n", "\ncanonicall\n") || replace_first(f, "\ncustom\n", "\ncustomm\n"); break;
